@@ -64,6 +64,24 @@ CHECKS = {
         "{False, True, int}.",
         "DESIGN.md section 4, C04",
     ),
+    "C05": (
+        "exploration",
+        "model-based testing of generated histories (Hypothesis) against a "
+        "dict-of-coordinates model with the three overwrite policies; "
+        "invariant after every step on memory and on disk",
+        "Generated histories of harvest_combos / harvest_cases / add_ds / "
+        "expand_dims / drop_sel / save_full_ds / new sessions / a rival "
+        "long-lived session (and save_merge_ds histories), with overlapping "
+        "identical or conflicting data, both engines and bare names; after "
+        "every step full_ds and load_ds(data_name) are read back by label "
+        "against the model; expected conflicts must raise and change "
+        "nothing.  One open finding (un-synced data dropped by the next "
+        "synced harvest) is excluded by construction and reported as "
+        "KNOWN-FINDING.",
+        "Values are float; label order is left to xarray; see "
+        "known_findings.txt for the open finding.",
+        "DESIGN.md section 4, C05",
+    ),
     "C06": (
         "exploration",
         "differential property-based testing (Hypothesis): crop path vs "
